@@ -239,6 +239,28 @@ def _isinstance_table(cx, fn, cls, attr=None, want_ret=False):
     return out
 
 
+def _table_loop(cx, fn, cls, attr):
+    """`for klass, value in ((A, 1), (B, 2), ...): if isinstance(x, klass): self.<attr> = value; return` -> {A: {'1'}, ...}"""
+    out = {}
+    for loop in [n for n in ast.walk(fn.node) if isinstance(n, ast.For)]:
+        it = loop.iter
+        if isinstance(it, ast.Name):
+            defs = [n.value for n in ast.walk(fn.node) if isinstance(n, ast.Assign) and any(isinstance(t, ast.Name) and t.id == it.id for t in n.targets)]
+            it = defs[0] if len(defs) == 1 else it
+        if not (isinstance(it, (ast.Tuple, ast.List)) and isinstance(loop.target, ast.Tuple) and len(loop.target.elts) == 2):
+            continue
+        kvar, vvar = [U(x) for x in loop.target.elts]
+        tests = [n for n in ast.walk(loop) if isinstance(n, ast.If) and isinstance(n.test, ast.Call) and callee_name(n.test) == 'isinstance'
+                 and U(n.test.args[1]) == kvar]
+        sets = [a for t in tests for a in ast.walk(t) if isinstance(a, ast.Assign) and U(a.targets[0]) == 'self.' + attr and U(a.value) == vvar]
+        stops = [a for t in tests for a in t.body if isinstance(a, (ast.Return, ast.Break))]
+        if len(tests) == 1 and sets and stops:
+            for el in it.elts:
+                if isinstance(el, (ast.Tuple, ast.List)) and len(el.elts) == 2:
+                    out.setdefault(U(el.elts[0]), set()).add(U(el.elts[1]))
+    return out
+
+
 def r2_overheads(ck, cx):
     ck.rule('R2', 'framing overhead table: base_adu_size = len(buildPacket) - len(PDU) per framer (ASCII counts hex characters), exception length = overhead + 2 (4 on ASCII), min_size / function-code peek offsets = position of the function code in each ADU')
     tm = cx.idx.cls(TM)
@@ -287,7 +309,8 @@ def r2_overheads(ck, cx):
     # base_adu_size
     f1 = cx.method(tm, '_set_adu_size')
     ck.saw('functions', f1.qn)
-    tab = _isinstance_table(cx, f1, tm, attr='base_adu_size')
+    tab = dict(_table_loop(cx, f1, tm, 'base_adu_size'))
+    tab.update({k: v for k, v in _isinstance_table(cx, f1, tm, attr='base_adu_size').items() if k in names.values()})
     for kind, cn in names.items():
         got = tab.get(cn)
         val = cx.ce.try_ev(ast.parse(list(got)[0], mode='eval').body, f1.mod, tm) if got and len(got) == 1 and None not in got else None
@@ -319,13 +342,14 @@ def r2_overheads(ck, cx):
             while isinstance(chain, ast.If):
                 t = chain.test
                 if isinstance(t, ast.Call) and callee_name(t) == 'isinstance' and 'framer' in U(t.args[0]):
-                    cn = U(t.args[1])
+                    cns = [U(x) for x in (t.args[1].elts if isinstance(t.args[1], ast.Tuple) else [t.args[1]])]
                     for s in chain.body:
                         if isinstance(s, ast.Assign) and isinstance(s.targets[0], ast.Name):
-                            if s.targets[0].id == 'min_size':
-                                mins[cn] = cx.ce.try_ev(s.value, f3.mod, tm)
-                            elif s.targets[0].id == 'func_code':
-                                peeks[cn] = s.value
+                            for cn in cns:
+                                if s.targets[0].id == 'min_size':
+                                    mins[cn] = cx.ce.try_ev(s.value, f3.mod, tm)
+                                elif s.targets[0].id == 'func_code':
+                                    peeks[cn] = s.value
                 chain = chain.orelse[0] if len(chain.orelse) == 1 else None
     for kind in ('tcp', 'rtu', 'ascii', 'binary'):
         cn = names[kind]
